@@ -1,0 +1,19 @@
+//go:build verif
+
+package utils
+
+// Contracts for the deductive checker in /verif (comments only; compiled to nothing).
+
+// ---- C20: the otherName element of the subjectAltName carries exactly the content octets of the marshalled name
+
+//@ spec derclen(b []byte) int := uf("derclen", "int", ref(b), off(b))
+//@ spec derhdr(n int) int := n < 128 ? 2 : (n < 256 ? 3 : (n < 65536 ? 4 : 5))
+
+//@ func MakeReceptorSAN
+//@   tags C20
+//@   site call append@1 DNSNAME: [C20] requires arg1[0].Tag == 2 && arg1[0].Class == 2 && len(arg1[0].Bytes) == len(name)
+//@   site call append@2 IPADDR: [C20] requires arg1[0].Tag == 7 && arg1[0].Class == 2
+//@   site call append@3 NODEID: [C20] requires arg1[0].Tag == 0 && arg1[0].Class == 2 && arg1[0].IsCompound
+//@        && len(arg1[0].Bytes) == derclen(asnOtherName)
+//@        && forall j int :: 0 <= j && j < derclen(asnOtherName) ==> arg1[0].Bytes[j] == asnOtherName[derhdr(derclen(asnOtherName)) + j]
+//@   site store Extension.Value WHOLE: [C20] requires value == sanBytes
